@@ -30,7 +30,7 @@ def run(ctx):
         if bad["e"] == "Panel":
             return "panel " + ("outside interval" if not bad.get("inb") else "not a pending frame / beyond depth")
         if bad["e"] == "Return":
-            bits = [k for k in ("swapneg", "epssame", "startInb") if not bad.get(k)]
+            bits = [k for k in ("swapneg", "epssame", "allinb") if not bad.get(k)]
             if bad.get("errq", 0) > 1:
                 bits.append("error-%s" % bad.get("cls"))
             return "return " + (" ".join(bits) if bits else "count/closure/warning")
@@ -43,6 +43,12 @@ def run(ctx):
     ctx.validate_all("Trace_Simpson", trace, key_of, group_start="Call", max_rejections=4,
                      what_of=lambda ex, bad: "Integrate execution rejected by Trace_Simpson at %s; call %s; return %s" % (
                          json.dumps(bad), json.dumps(ex[0]), json.dumps(ex[-1])[:300]))
+    # A-level (structure of the recursion: order of the evaluations, pending frames, closure): drift only
+    if not ctx.violations:
+        ok, consumed, total = ctx.validate("Trace_Simpson", trace, cfg="Trace_Simpson_A.cfg")
+        if not ok:
+            al = open(trace).read().splitlines()
+            ctx.drift("recorded executions satisfy the property but do not follow the frame machine of spec/Simpson.tla (first deviation at event %d of %d: %s)" % (consumed + 1, total, al[min(consumed, len(al) - 1)][:160]))
     ctx.count(ctx.cov["trace_events"])
     ctx.cov["rule"] = ("model: every adaptive bisection tree for depth limits 0..3 (thorough 0..4) with the environment choosing accept/recurse; exact panel identity for "
                        "monomials x^0..x^6 on 10 panels; traces: one execution per Integrate call on polynomials (deg<=5), estimator-regular families and arbitrary integrands")
